@@ -13,8 +13,8 @@ import random
 ID = "C31"
 LEVEL = "exploration"
 TIERS = {
-    "quick": {"runs": 2000, "wall": 80, "chunk": 20, "shrink_s": 40, "run_cap_s": 60},
-    "thorough": {"runs": 400_000, "wall": 840, "chunk": 50, "shrink_s": 120, "run_cap_s": 60},
+    "quick": {"runs": 2000, "wall": 80, "chunk": 20, "shrink_s": 40, "run_cap_s": 120},
+    "thorough": {"runs": 400_000, "wall": 840, "chunk": 50, "shrink_s": 120, "run_cap_s": 120},
 }
 RULE = (
     "one run = one device seed, one history of 1-3 device calls (execute and the adjoint derivative "
